@@ -1,1 +1,130 @@
-From PdfV Require Import Base.Prelude.
+(** Properties/C03.v — "Every spec-conformant spelling of an object parses to the value it denotes".
+    Only statements; each closed by [exact] of a lemma proved elsewhere.  Layers:
+      bytes —(Lex/LexProofs: white-space, comments, token boundaries)→ lexemes and string bodies
+            —(Lex/NumProofs, Syn/NameProofs, Lex/StrProofs: every ISO way of writing a number, name, string)→ items
+            —(Syn/ParserProofs: the object grammar incl. the `n g R` look-ahead)→ values. *)
+From PdfV Require Import Base.Prelude Gen.Generated Lex.Lexer Lex.StrLexer Lex.LexProofs Lex.NumProofs Lex.StrProofs
+  Syn.Prim Syn.Utf8 Syn.Parser Syn.Spells Syn.ParserProofs Syn.NameProofs Syn.RenderProofs.
+
+(** the full statement (names of arbitrary bytes): refuted by C03_name_not_utf8_refuted below — finding C03-h *)
+Definition C03_full_statement : Prop :=
+  forall s e, name_enc s e -> name_word (SLASH :: e) s.
+
+(** tokens: after any white-space (the six ISO white-space bytes) and comments (ended by CR or LF), the lexer returns
+    the next regular token / name / delimiter token and stops exactly behind it *)
+Theorem C03_token_regular : forall sp tok rest p,
+  sep sp -> tok <> [] -> Forall (fun b => is_reg b = true) tok -> boundary rest ->
+  next_word (mkLx p (sp ++ tok ++ rest)) = Ok (tok, p + lenN sp, mkLx (p + lenN sp + lenN tok) rest).
+Proof. exact next_word_regular. Qed.
+Print Assumptions C03_token_regular.
+
+Theorem C03_token_name : forall sp enc rest p,
+  sep sp -> Forall (fun b => is_reg b = true) enc -> boundary rest ->
+  next_word (mkLx p (sp ++ (SLASH :: enc) ++ rest)) = Ok (SLASH :: enc, p + lenN sp, mkLx (p + lenN sp + 1 + lenN enc) rest).
+Proof. exact next_word_name. Qed.
+Print Assumptions C03_token_name.
+
+Theorem C03_white_space_is_iso : forall b, b < 256 -> is_ws b = memN b iso_ws.
+Proof. exact is_ws_iso. Qed.
+Theorem C03_delimiters_are_iso : forall b, b < 256 -> is_delim b = memN b iso_delims.
+Proof. exact is_delim_iso. Qed.
+
+(** numbers *)
+Theorem C03_integer : forall sg ds, sign_ok sg -> ds <> [] -> all_digits ds = true ->
+  let v := Z.of_N (N_of_dec ds) in
+  let z := if match sg with [c] => c =? MINUS | _ => false end then Z.opp v else v in
+  (-2147483648 <= z <= 2147483647)%Z -> int_word (sg ++ ds) z.
+Proof. exact int_spelling. Qed.
+Print Assumptions C03_integer.
+
+Theorem C03_real : forall sg ip fp, sign_ok sg -> all_digits ip = true -> all_digits fp = true -> ip ++ fp <> [] ->
+  real_word (sg ++ ip ++ DOT :: fp).
+Proof. exact real_spelling. Qed.
+Print Assumptions C03_real.
+
+(** names with #xx escapes (valid UTF-8 only: C03-h) *)
+Theorem C03_name : forall s e, name_enc s e -> is_utf8 s = true -> name_word (SLASH :: e) s.
+Proof. exact name_spelling. Qed.
+Print Assumptions C03_name.
+
+Theorem C03_name_not_utf8_refuted : name_enc [255] [HASH; 102; 102] /\ decode_name [HASH; 102; 102] = Err E_PARSE.
+Proof. exact NameProofs.C03_name_not_utf8_refuted. Qed.
+
+(** literal strings: escapes, octal codes (1–3 digits), line continuations, balanced parentheses, raw end-of-lines *)
+Theorem C03_string : forall out text rest,
+  spell_run (RPAREN :: rest) 0 out text 0 ->
+  string_lex (text ++ RPAREN :: rest) = Ok (out, lenN (text ++ [RPAREN])).
+Proof. exact string_lex_spelled. Qed.
+Print Assumptions C03_string.
+
+(** hexadecimal strings: white-space anywhere, either case, odd number of digits *)
+Theorem C03_hexstring : forall out text rest, hex_run out text ->
+  hexstring_lex (text ++ hexstr_end :: rest) = Ok (out, lenN (text ++ [hexstr_end])).
+Proof. exact hexstring_lex_spelled. Qed.
+Print Assumptions C03_hexstring.
+
+(** values: every token-level spelling parses to the denoted value and the parser stops exactly behind it *)
+Theorem C03_value : forall v its, spells v its ->
+  forall fuel R cx depth s k s_end,
+    (length its <= fuel)%nat -> vdepth v <= depth ->
+    Lexes s (its ++ k) s_end -> follow_ok k s_end -> nostream_at k s_end ->
+    exists s1, parse_fuel fuel R cx F_ANY depth s = Ok (v, s1) /\ Lexes s1 k s_end.
+Proof. exact parse_spelled. Qed.
+Print Assumptions C03_value.
+
+(** … on bytes: separators and token boundaries as the standard allows, nesting up to MAX_DEPTH *)
+Theorem C03_value_bytes : forall v its text tl R cx p,
+  spells v its -> vdepth v <= MAX_DEPTH -> renders its text tl ->
+  forall p', p' + lenN tl = p + lenN text ->
+  follow_ok [] (mkLx p' tl) -> nostream_at [] (mkLx p' tl) ->
+  parse_ctx R cx F_ANY MAX_DEPTH (mkLx p text) = Ok (v, mkLx p' tl).
+Proof. exact parse_rendered. Qed.
+Print Assumptions C03_value_bytes.
+
+(** sequences: each parse consumes exactly its own text *)
+Theorem C03_sequence : forall vs body, spells_list vs body ->
+  forall fuel R cx depth s k s_end,
+    (length body <= fuel)%nat -> ldepth vs <= depth ->
+    Lexes s (body ++ k) s_end -> follow_ok k s_end -> nostream_at k s_end -> notR_at k s_end ->
+    exists s1, parse_n (length vs) fuel R cx depth s = Ok (vs, s1) /\ Lexes s1 k s_end.
+Proof. exact parse_sequence. Qed.
+Print Assumptions C03_sequence.
+
+(** indirect objects  n g obj … endobj  (strict and tolerant options) *)
+Theorem C03_indirect : forall v its a b id gen, spells v its ->
+  parse_u64 a = Ok id -> parse_u64 b = Ok gen ->
+  forall R allow s k s_end,
+    True -> vdepth v <= MAX_DEPTH ->
+    Lexes s (IWord a :: IWord b :: IWord kw_obj :: its ++ IWord kw_endobj :: k) s_end ->
+    (forall s3, Lexes s3 (its ++ IWord kw_endobj :: k) s_end -> (length its <= fuel_for s3)%nat) ->
+    exists s1, parse_indirect_object R allow F_ANY s = Ok (id, gen, v, s1) /\ Lexes s1 k s_end.
+Proof. exact parse_indirect_spelled. Qed.
+Print Assumptions C03_indirect.
+
+(** MAX_DEPTH as generated from the source supports the nesting the property asks for *)
+Theorem C03_depth_supported : 20 <= MAX_DEPTH.
+Proof. vm_compute. discriminate. Qed.
+
+(** non-vacuity: a concrete text meets the premises of C03_value_bytes *)
+Example C03_nonvacuous :
+  let its := [IWord kw_arr_open; IWord [49]; IWord [SLASH; 65]; IStr [120]; IWord kw_arr_close] in
+  let text := [91; 49; 32; 37; 99; 13; 47; 65; 40; 120; 41; 93] in     (* "[1 %c\r/A(x)]" *)
+  spells (PArr [PInt 1; PName [65]; PStr [120]]) its /\ renders its text [] /\
+  parse no_resolve F_ANY text = Ok (PArr [PInt 1; PName [65]; PStr [120]]).
+Proof.
+  split; [|split].
+  - apply (sp_arr [PInt 1; PName [65]; PStr [120]] [IWord [49]; IWord [SLASH; 65]; IStr [120]]).
+    apply (sl_cons (PInt 1) _ [IWord [49]] _). { apply sp_int. split; reflexivity. }
+    apply (sl_cons (PName [65]) _ [IWord [SLASH; 65]] _). { apply sp_name. exists [65]. split; reflexivity. }
+    apply (sl_cons (PStr [120]) _ [IStr [120]] []). { apply sp_str. }
+    constructor.
+  - apply (rn_delim1 [] 91 _ _ _); try reflexivity; [constructor|].
+    apply (rn_reg [] [49] _ ([32; 37; 99; 13; 47; 65; 40; 120; 41; 93]) _); try reflexivity;
+      [constructor|discriminate|repeat constructor|].
+    apply (rn_name [32; 37; 99; 13] [65] _ ([40; 120; 41; 93]) _); try reflexivity.
+    { apply sep_ws; [reflexivity|]. apply (sep_comment [99] 13 []); [repeat constructor|reflexivity|constructor]. }
+    { repeat constructor. }
+    apply (rn_str [] [120; 41] [120] _ [93] _); [constructor|reflexivity|].
+    apply (rn_delim1 [] 93 _ [] _); try reflexivity; [constructor|]. constructor.
+  - vm_compute. reflexivity.
+Qed.
